@@ -367,6 +367,15 @@ func runC17Sign(c C17Case) *pOutcome {
 		return out
 	}
 	target := routes[0].Targets[0]
+	if c17Shared != nil {
+		// the real dispatcher keeps one compiled target (and one signing config object) for its whole life
+		if c17Shared.target != nil {
+			target = *c17Shared.target
+		} else {
+			t := target
+			c17Shared.target = &t
+		}
+	}
 
 	// independent reading of the case
 	sigHdr, tsHdr := c.SigHdr, c.TsHdr
@@ -478,8 +487,18 @@ func runC17Sign(c C17Case) *pOutcome {
 
 	// run: a new HTTPDeliverer per case (it caches loaded secrets)
 	rt := &c17RT{}
-	hd := NewHTTPDeliverer(&http.Client{Transport: rt}, pEgressPolicy(compiled))
-	hd.Resolver = &c16Resolver{w: newC16World(C16Case{})}
+	var hd *HTTPDeliverer
+	if c17Shared != nil && c17Shared.hd != nil {
+		// sequence test: the same deliverer signs several deliveries at different instants
+		hd, rt = c17Shared.hd, c17Shared.rt
+		rt.seen = nil
+	} else {
+		hd = NewHTTPDeliverer(&http.Client{Transport: rt}, pEgressPolicy(compiled))
+		hd.Resolver = &c16Resolver{w: newC16World(C16Case{})}
+		if c17Shared != nil {
+			c17Shared.hd, c17Shared.rt = hd, rt
+		}
+	}
 	hd.Now = func() time.Time { return now }
 	hdr := http.Header{}
 	hdr.Set("Content-Type", "application/octet-stream")
@@ -582,6 +601,96 @@ func runC17Sign(c C17Case) *pOutcome {
 	}
 	out.label("signed-ok")
 	return out
+}
+
+// c17Shared, when set, makes runC17Sign reuse one HTTPDeliverer across calls (sequence test).
+var c17Shared *struct {
+	hd     *HTTPDeliverer
+	rt     *c17RT
+	target *TargetConfig
+}
+
+// C17SeqCase: one target and one long-lived deliverer, deliveries at several instants (in the
+// order given, which need not be chronological: a deliverer must not depend on call history).
+type C17SeqCase struct {
+	Base C17Case  `json:"base"`
+	Nows []string `json:"nows"`
+}
+
+func runC17Seq(c C17SeqCase) *pOutcome {
+	c17Shared = &struct {
+		hd     *HTTPDeliverer
+		rt     *c17RT
+		target *TargetConfig
+	}{}
+	defer func() { c17Shared = nil }()
+	agg := newPOutcome()
+	for i, n := range c.Nows {
+		step := c.Base
+		step.Now = n
+		out := runC17Sign(step)
+		for l := range out.Labels {
+			agg.label(l)
+		}
+		agg.NonTriv = agg.NonTriv || out.NonTriv
+		if out.Failure != nil {
+			out.Failure.Step = i
+			out.Failure.Detail = fmt.Sprintf("delivery #%d of %d by one deliverer (instants %v): %s", i+1, len(c.Nows), c.Nows, out.Failure.Detail)
+			agg.Failure = out.Failure
+			return agg
+		}
+		if out.Skipped != "" {
+			agg.Skipped = out.Skipped
+			return agg
+		}
+	}
+	if len(c.Nows) >= 2 {
+		agg.label("sequence>=2")
+	}
+	return agg
+}
+
+func TestProp_C17_SignSequence(t *testing.T) {
+	base := genC17Case()
+	rapid.Check(t, func(rt *rapid.T) {
+		b := base.Draw(rt, "base")
+		c := C17SeqCase{Base: b}
+		// instants: the base instant plus others around the window edges of the same case
+		var ws []c17GenWin
+		for _, v := range b.Vers {
+			from, err := time.Parse(time.RFC3339Nano, v.From)
+			if err != nil {
+				continue
+			}
+			w := c17GenWin{from: from}
+			if v.Until != "" {
+				if u, err := time.Parse(time.RFC3339Nano, v.Until); err == nil {
+					w.until = u
+				}
+			}
+			ws = append(ws, w)
+		}
+		n := rapid.IntRange(2, 5).Draw(rt, "n")
+		for i := 0; i < n; i++ {
+			if len(ws) == 0 || rapid.IntRange(0, 3).Draw(rt, "use_base") == 0 {
+				c.Nows = append(c.Nows, b.Now)
+				continue
+			}
+			w := ws[rapid.IntRange(0, len(ws)-1).Draw(rt, "w")]
+			edge := w.from
+			if !w.until.IsZero() && rapid.Bool().Draw(rt, "until_edge") {
+				edge = w.until
+			}
+			d := rapid.SampledFrom([]time.Duration{-24 * time.Hour, -time.Second, -1, 0, 1, time.Second, time.Hour, 24 * time.Hour, 240 * time.Hour}).Draw(rt, "d")
+			c.Nows = append(c.Nows, edge.Add(d).UTC().Format(time.RFC3339Nano))
+		}
+		out := runC17Seq(c)
+		pEmit("C17", "TestProp_C17_SignSequence", c, out)
+		if out.Failure != nil {
+			verifkit.SaveFailing("TestProp_C17_SignSequence", c, out.Failure)
+			rt.Fatalf("%v", out.Failure)
+		}
+	})
 }
 
 func TestProp_C17_Sign(t *testing.T) {
